@@ -100,6 +100,10 @@ var mandatory = map[string]bool{
 	"call.return":         true,
 	"actor.op":            true,
 	"life.wait":           true,
+	"keylock.wake":        true,
+	"updateIndex.start":   true,
+	"handleChange.afterDo": true,
+	"store.open":          true,
 }
 
 // New creates a simulation driven by the tape.
